@@ -532,6 +532,41 @@ pub fn check_c02(h: &Hist) -> POut {
             }
         }
     }
+    // R4b: after an in-place replacement by v_new, an *older* write must not resurface while
+    // v_new has not left through any callback (and no clear intervened): that is a rollback.
+    for cb in h.cbs.iter().filter(|c| c.kind == CbKind::Exit) {
+        let Some(oi) = cb.in_op else { continue };
+        let ins = &h.ops[oi];
+        if !matches!(ins.op, Op::Insert { .. } | Op::InsertIfPresent { .. }) || !ins.returned() {
+            continue;
+        }
+        let (Some(vnew), Some(k)) = (ins.val, ins.op.key()) else { continue };
+        if matches!(h.plan.cfg.keys, KeyMode::Collide { .. }) {
+            continue;
+        }
+        for g in h.ops.iter().filter(|g| g.inv_seq > ins.ret_seq.unwrap() && g.op.key() == Some(k)) {
+            let seen: Option<Val> = match &g.res {
+                Some(Res::Got(Some((a, _, _)))) => Some(*a),
+                Some(Res::GotMut(Some((a, _)))) => Some(*a),
+                _ => None,
+            };
+            let Some(v) = seen else { continue };
+            if v.id == vnew.id {
+                continue;
+            }
+            let Some(w) = by_id.get(&v.id) else { continue };
+            if !(w.ret < ins.inv_seq) {
+                continue; // not strictly older than the replacement
+            }
+            let vnew_left = h.cbs.iter().any(|c| c.val.map(|x| x.id) == Some(vnew.id) && c.seq < g.ret_seq.unwrap());
+            let cleared = h.ops.iter().any(|c| matches!(c.op, Op::Clear | Op::Close) && c.ret_seq_or_max() > ins.inv_seq && c.inv_seq < g.inv_seq);
+            let overwritten_in_place = h.ops.iter().any(|m| matches!(m.op, Op::GetMut { write: true, .. }) && m.op.key() == Some(k) && m.inv_seq < g.ret_seq.unwrap() && m.ret_seq_or_max() > ins.inv_seq);
+            if !vnew_left && !cleared && !overwritten_in_place {
+                out.violations.push(violk("C02", "R4-older-write-resurfaced", g.ret_seq.unwrap(), k, "after an in-place replacement an older write of the key was returned although the new value never left the cache", format!("{:?} (seq [{},{}]) replaced the resident value with {:?}; {}({}) at seq {} returned the older {:?} (its write returned at seq {})", ins.op, ins.inv_seq, ins.ret_seq.unwrap(), vnew, g.op.name(), k, g.inv_seq, v, w.ret)));
+                break;
+            }
+        }
+    }
     // R5: quiescent exactness (default validator; keys whose writes are separated by quiescent points)
     if h.plan.cfg.validator == Validator::Always {
         let mut per_key: BTreeMap<u64, Vec<&Write>> = BTreeMap::new();
@@ -816,6 +851,17 @@ pub fn check_c12(h: &Hist, tasks_end: &[(String, String)]) -> POut {
             out.probe("concurrent_closers", 1);
         }
     }
+    // close() is idempotent: called any number of times, also concurrently, it reports success
+    // (only a dead worker could make it fail, and that is reported on its own)
+    let worker_died = tasks_end.iter().any(|(_, s)| s.starts_with("panicked"));
+    for c in closes.iter() {
+        if let Some(Res::Err(e)) = &c.res {
+            if !worker_died {
+                let overlapping = closes.iter().any(|b| b.inv_seq != c.inv_seq && b.inv_seq < c.ret_seq_or_max() && b.ret_seq_or_max() > c.inv_seq);
+                out.violations.push(viol("C12", "R-close-error", c.ret_seq_or_max(), if overlapping { "a close() racing another close() returned an error" } else { "close() returned an error" }, format!("close by {} at seq [{},{}] returned Err({})", c.task, c.inv_seq, c.ret_seq_or_max(), e)));
+            }
+        }
+    }
     if let Some(c_ok) = first_ok {
         out.nontrivial = true;
         for o in h.ops.iter().filter(|o| o.inv_seq > c_ok && o.returned()) {
@@ -952,6 +998,56 @@ pub fn check_c17(h: &Hist) -> POut {
         }
         if m.life_count > 0 {
             out.probe("life_expectancy_sample_recorded", m.life_count);
+        }
+    }
+    out
+}
+
+// ------------------------------------------------------------------------------------------
+// C03 under concurrency: rules that stay sound with overlapping clients
+// ------------------------------------------------------------------------------------------
+
+pub fn check_c03_concurrent(h: &Hist) -> POut {
+    let mut out = POut::new();
+    if !h.built_ok || h.plan.has_tag("lockstep") {
+        return out;
+    }
+    let inserts: BTreeMap<u64, &OpRec> = h.ops.iter().filter(|o| matches!(o.op, Op::Insert { .. } | Op::InsertIfPresent { .. })).filter_map(|o| o.val.map(|v| (v.id, o))).collect();
+    for g in h.ops.iter().filter(|g| g.returned()) {
+        let (v, rem): (Val, Option<u64>) = match &g.res {
+            Some(Res::Got(Some((a, _, t)))) => (*a, Some(*t)),
+            Some(Res::GotMut(Some((a, _)))) => (*a, None),
+            _ => continue,
+        };
+        let Some(ins) = inserts.get(&v.id) else { continue };
+        let ttl = match ins.op {
+            Op::Insert { ttl_ns, .. } => ttl_ns,
+            _ => 0,
+        };
+        if ttl == 0 {
+            if let Some(t) = rem {
+                if t != u64::MAX {
+                    out.violations.push(violk("C03", "R-ttl-of-no-ttl", g.ret_seq.unwrap(), v.key, "entry without TTL reports an expiry", format!("{}({}) returned {:?} with remaining ttl {}ns", g.op.name(), v.key, v, t)));
+                }
+            }
+            continue;
+        }
+        out.nontrivial = true;
+        if !ins.returned() {
+            continue;
+        }
+        // the insert read the clock in [inv_now, ret_now]
+        if g.inv_now >= ins.ret_now + ttl {
+            out.probe("lookup_after_deadline_returned_value", 1);
+            out.violations.push(violk("C03", "R-served-after-ttl", g.ret_seq.unwrap(), v.key, "entry returned after its TTL elapsed", format!("{}({}) at [{},{}] returned {:?}; inserted at [{},{}] with ttl {}ns", g.op.name(), v.key, g.inv_now, g.ret_now, v, ins.inv_now, ins.ret_now, ttl)));
+        }
+        if let Some(t) = rem {
+            let lo = ttl.saturating_sub(g.ret_now.saturating_sub(ins.inv_now));
+            let hi = ttl.saturating_sub(g.inv_now.saturating_sub(ins.ret_now));
+            if t == u64::MAX || t > ttl || t < lo || t > hi {
+                out.violations.push(violk("C03", "R-ttl-value", g.ret_seq.unwrap(), v.key, "reported remaining TTL outside the possible interval", format!("{}({}) reported {}ns for {:?}; ttl {} insert@[{},{}] lookup@[{},{}] allows [{},{}]", g.op.name(), v.key, t, v, ttl, ins.inv_now, ins.ret_now, g.inv_now, g.ret_now, lo, hi)));
+            }
+            out.probe("remaining_ttl_checked_under_concurrency", 1);
         }
     }
     out
